@@ -893,6 +893,9 @@ fn main() {
             let inserts: Vec<(&'static str, &'static str, S)> = vec![
                 ("missing-label", "LabelNotDefined", S::Goto(Id::new("NOLABEL", None))),
                 ("duplicate-definition", "DuplicateDefinition", S::Dim(ar(), vec![E::Lit(T::Int, "5".into())])),
+                // the dimensions are converted before the name is looked up (array_to_dim_type): a second DIM
+                // with a string bound is a TypeMismatch, not a DuplicateDefinition (convUnit of the model)
+                ("duplicate-definition(string bound)", "TypeMismatch", S::Dim(ar(), vec![E::Lit(T::Str, "\"x\"".into())])),
                 ("wrong-sub-argument-count", "ArgumentCountMismatch", S::CallSub(sa(), vec![E::Lit(T::Int, "1".into()), E::Lit(T::Int, "2".into())])),
                 ("wrong-sub-by-reference-type", "ArgumentTypeMismatch", S::CallSub(sa(), vec![E::Var(Id::new("QASTR", Some(T::Str)))])),
             ];
@@ -900,7 +903,7 @@ fn main() {
                 if !thorough && (pi + s) % 2 != 0 {
                     continue;
                 }
-                if fam == "duplicate-definition" && s < 2 {
+                if fam.starts_with("duplicate-definition") && s < 2 {
                     // before the program's own DIM the inserted DIM is the first definition
                     continue;
                 }
